@@ -14,15 +14,95 @@ FRESH_TIMEOUT_MS = int(os.environ.get("PYVC_FRESH_TIMEOUT_MS", "30000"))
 STATS = {"z3": 0, "cvc5": 0, "z3_time": 0.0, "cvc5_time": 0.0, "unknown": 0}
 
 
-def check_with_fallback(solver: z3.Solver, negated_goal):
+def has_quantifier(terms, limit=400) -> bool:
+    seen = 0
+    stack = list(terms)
+    while stack and seen < limit:
+        t = stack.pop()
+        seen += 1
+        try:
+            if z3.is_quantifier(t):
+                return True
+            stack.extend(t.children())
+        except Exception:  # noqa: BLE001
+            continue
+    return False
+
+
+def confirm_unsat(solver: z3.Solver, extra, timeout_ms: int) -> str:
+    """z3 5.1 was seen to answer `unsat` at random (about 1 run in 6 under load, after 0.25 s of a 1 s budget) on a
+    satisfiable 4-assertion query with an existential over strings; asked again, the same solver said `sat`
+    (DESIGN.md 15).  An `unsat` on a query with quantifiers is therefore believed only if a second, fresh solver
+    over the same assertions answers `unsat` too; anything else counts as `unknown`."""
+    assertions = list(solver.assertions())
+    if not has_quantifier(assertions + ([extra] if extra is not None else [])):
+        return "unsat"
+    STATS["confirmations"] = STATS.get("confirmations", 0) + 1
+    s2 = z3.Solver()
+    s2.set("timeout", int(timeout_ms))
+    s2.set("random_seed", 7)
+    for a in assertions:
+        s2.add(a)
+    if extra is not None:
+        s2.add(extra)
+    r = s2.check()
+    if r == z3.unsat:
+        return "unsat"
+    STATS["unconfirmed_unsat"] = STATS.get("unconfirmed_unsat", 0) + 1
+    return "unknown"
+
+
+class SolverDisagreement(Exception):
+    """z3 answered unsat and cvc5 answered sat on the same query: neither is believed, the run is a checker error"""
+
+
+SECOND = {"asked": 0, "agree": 0, "unknown": 0, "skipped": 0}
+
+
+def second_opinion(solver: z3.Solver, what: str):
+    """thorough tier (PYVC_SECOND_OPINION=1): z3 has just answered unsat on the solver's current assertions - for a
+    pruned path or a discharged obligation.  Queries with quantifiers or sequences (where a spurious unsat of z3 was
+    observed, DESIGN.md 15) are put to cvc5 as well; `sat` there is a disagreement."""
+    if not os.environ.get("PYVC_SECOND_OPINION"):
+        return
+    try:
+        smt2 = solver.to_smt2()
+    except Exception:  # noqa: BLE001
+        SECOND["skipped"] += 1
+        return
+    if "forall" not in smt2 and "exists" not in smt2 and "seq." not in smt2:
+        SECOND["skipped"] += 1
+        return
+    SECOND["asked"] += 1
+    r = run_cvc5(smt2, int(os.environ.get("PYVC_SECOND_TIMEOUT_S", "10")))
+    if r == "sat":
+        path = os.path.join(_scratch(), f"disagreement_{os.getpid()}_{SECOND['asked']}.smt2")
+        with open(path, "w") as fh:
+            fh.write(portable(smt2))
+        raise SolverDisagreement(f"{what}: z3 unsat, cvc5 sat; query kept at {path}")
+    SECOND["agree" if r == "unsat" else "unknown"] += 1
+
+
+LAST = {"first_unknown": False}
+HARD: set = set()      # obligation names that needed the race before (in this worker process)
+
+
+def check_with_fallback(solver: z3.Solver, negated_goal, key=None):
     """returns (result, model|None, solver_name, smt2|None)"""
     import time
     t0 = time.time()
     solver.push()
     solver.add(negated_goal)
     # first a short z3 attempt, then cvc5 on the dumped query, then z3 with the full budget
-    solver.set("timeout", FIRST_TIMEOUT_MS)
+    # adaptive first attempt: an obligation (by name) that the incremental z3 left open before gets 0.5 s instead of 5 s
+    # before the race of fresh z3 / cvc5 / z3 4.8 starts
+    solver.set("timeout", min(500, FIRST_TIMEOUT_MS) if key is not None and key in HARD else FIRST_TIMEOUT_MS)
     r = solver.check()
+    if r == z3.unsat and confirm_unsat(solver, None, max(FIRST_TIMEOUT_MS, 5000)) != "unsat":
+        r = z3.unknown          # (the assertions already include the negated goal: it was added above)
+    LAST["first_unknown"] = (r == z3.unknown)
+    if r == z3.unknown and key is not None:
+        HARD.add(key)
     model = solver.model() if r == z3.sat else None
     if r == z3.sat and not _model_ok(model, negated_goal):
         r, model = z3.unknown, None      # z3 produced a model that does not satisfy the query (seen with seq.last_indexof)
@@ -34,34 +114,24 @@ def check_with_fallback(solver: z3.Solver, negated_goal):
         except Exception:  # pragma: no cover
             smt2 = None
     solver_used = "z3"
-    if r == z3.unknown and smt2 is not None:
-        # the incremental solver gave up: the same query on FRESH solvers (observed: queries that time out in the
-        # incremental context are decided in well under a second by a fresh z3), then an external portfolio
-        t1 = time.time()
+    if r == z3.unsat:
         try:
-            fresh = z3.Solver()
-            fresh.set("timeout", FRESH_TIMEOUT_MS)
-            fresh.from_string(smt2)
-            r2 = fresh.check()
-        except z3.Z3Exception:
-            r2 = z3.unknown
-        if r2 == z3.unsat:
+            second_opinion(solver, "obligation")
+        except SolverDisagreement:
             solver.pop()
-            solver.set("timeout", 5000)
-            STATS["z3"] += 1
-            return "unsat", None, "z3-fresh", None
-        if r2 == z3.sat and _model_ok(fresh.model(), negated_goal):
-            m2 = fresh.model()
-            solver.pop()
-            solver.set("timeout", 5000)
-            return "sat", m2, "z3-fresh", smt2
-        res, who = run_portfolio(smt2, CVC5_TIMEOUT_S)
+            raise
+    if r == z3.unknown and smt2 is not None:
+        # the incremental solver gave up: the same query goes to a FRESH in-process z3 (observed: queries that time out
+        # in the incremental context are decided in well under a second by a fresh z3) and, at the same time, to the
+        # external portfolio (cvc5, cvc5 --enum-inst, z3 4.8); the first definitive answer wins and stops the others
+        t1 = time.time()
+        res, m2, who = race(smt2, negated_goal, solver.ctx)
         STATS["cvc5"] += 1
         STATS["cvc5_time"] += time.time() - t1
         if res in ("unsat", "sat"):
             solver.pop()
             solver.set("timeout", 5000)
-            return res, None, who, smt2
+            return res, m2, who, (smt2 if res == "sat" else None)
     solver.pop()
     solver.set("timeout", 5000)
     STATS["z3"] += 1
@@ -74,10 +144,110 @@ def check_with_fallback(solver: z3.Solver, negated_goal):
     return "unknown", None, "z3+cvc5", smt2
 
 
+def race(smt2: str, negated_goal, main_ctx):
+    """fresh in-process z3 (own context, own thread) against the external portfolio; returns (result, model|None, who)"""
+    import threading
+    import time
+    path, procs = start_portfolio(smt2, CVC5_TIMEOUT_S)
+    box = {}
+    ctx = z3.Context()
+    fresh = z3.Solver(ctx=ctx)
+    fresh.set("timeout", FRESH_TIMEOUT_MS)
+
+    def run():
+        try:
+            fresh.from_string(smt2)
+            box["r"] = fresh.check()
+        except z3.Z3Exception:
+            box["r"] = None
+
+    th = threading.Thread(target=run, daemon=True)
+    th.start()
+    deadline = time.time() + CVC5_TIMEOUT_S + 5
+    pending = dict(procs)
+    z3_done = False
+    # on quantified queries a single z3 engine's `unsat` is not believed (see confirm_unsat): cvc5's `unsat`, or the
+    # agreement of two different z3 engines (5.1 in-process, 4.8 CLI), is
+    quantified = ("(forall " in smt2) or ("(exists " in smt2)
+    votes = set()
+    try:
+        while time.time() < deadline and (pending or not z3_done):
+            if not z3_done and not th.is_alive():
+                z3_done = True
+                r2 = box.get("r")
+                if r2 is not None and r2 == z3.unsat:
+                    if not quantified:
+                        return "unsat", None, "z3-fresh"
+                    votes.add("z3-fresh")
+                if r2 is not None and r2 == z3.sat:
+                    try:
+                        m = fresh.model()
+                        if _model_ok(m, negated_goal.translate(ctx)):
+                            return "sat", m.translate(main_ctx), "z3-fresh"
+                    except z3.Z3Exception:
+                        pass
+            for k, p in list(pending.items()):
+                if p.poll() is not None:
+                    out = (p.stdout.read() or "").strip().splitlines()
+                    first = out[0] if out else ""
+                    del pending[k]
+                    if first == "sat":
+                        return first, None, k
+                    if first == "unsat":
+                        if k.startswith("cvc5") or not quantified:
+                            return first, None, k
+                        votes.add(k)
+            if len(votes) >= 2:
+                return "unsat", None, "+".join(sorted(votes))
+            time.sleep(0.02)
+        return "unknown", None, "portfolio"
+    finally:
+        if th.is_alive():
+            try:
+                ctx.interrupt()
+            except Exception:  # noqa: BLE001
+                pass
+            th.join(timeout=10)
+        stop_portfolio(path, procs)
+
+
+def start_portfolio(smt2: str, timeout_s: int):
+    text = portable(smt2)
+    with tempfile.NamedTemporaryFile("w", suffix=".smt2", delete=False, dir=_scratch()) as fh:
+        fh.write(text)
+        path = fh.name
+    cmds = {"cvc5": ["/usr/bin/cvc5", "--strings-exp", f"--tlimit={timeout_s * 1000}", path],
+            "cvc5-enum-inst": ["/usr/bin/cvc5", "--strings-exp", "--enum-inst", f"--tlimit={timeout_s * 1000}", path],
+            "z3-4.8": ["/usr/bin/z3", f"-T:{timeout_s}", path]}
+    procs = {}
+    for k, c in cmds.items():
+        try:
+            procs[k] = subprocess.Popen(c, stdout=subprocess.PIPE, stderr=subprocess.DEVNULL, text=True)
+        except OSError:
+            pass
+    return path, procs
+
+
+def stop_portfolio(path, procs):
+    for p in procs.values():
+        if p.poll() is None:
+            p.kill()
+        try:
+            p.wait(timeout=5)
+        except Exception:  # noqa: BLE001
+            pass
+        if p.stdout:
+            p.stdout.close()
+    try:
+        os.unlink(path)
+    except OSError:
+        pass
+
+
 def run_portfolio(smt2: str, timeout_s: int):
     """cvc5 (default and --enum-inst) and z3 4.8 on the dumped query, concurrently; the first definitive answer wins"""
     import time
-    text = smt2 if "(set-logic" in smt2 else "(set-logic ALL)\n" + smt2
+    text = portable(smt2)
     with tempfile.NamedTemporaryFile("w", suffix=".smt2", delete=False, dir=_scratch()) as fh:
         fh.write(text)
         path = fh.name
@@ -114,6 +284,14 @@ def run_portfolio(smt2: str, timeout_s: int):
             pass
 
 
+def portable(smt2: str) -> str:
+    """z3's simplifier prints seq.nth(s, i) as ite(in-bounds, seq.nth_i(s, i), seq.nth_u(s, i)); both internal symbols
+    denote seq.nth(s, i) on their side of the test, so writing seq.nth for either gives an equivalent, standard query"""
+    import re
+    text = re.sub(r"seq\.nth_[iu]\b", "seq.nth", smt2)
+    return text if "(set-logic" in text else "(set-logic ALL)\n" + text
+
+
 def _model_ok(model, negated_goal) -> bool:
     """a counter-model is only believed if the negated goal evaluates to true in it (quantified goals: not decidable
     by evaluation - accepted)"""
@@ -128,9 +306,7 @@ def _model_ok(model, negated_goal) -> bool:
 
 def run_cvc5(smt2: str, timeout_s: int | None = None) -> str:
     timeout_s = timeout_s or CVC5_TIMEOUT_S
-    text = smt2
-    if "(set-logic" not in text:
-        text = "(set-logic ALL)\n" + text
+    text = portable(smt2)
     with tempfile.NamedTemporaryFile("w", suffix=".smt2", delete=False, dir=_scratch()) as fh:
         fh.write(text)
         path = fh.name
